@@ -14,6 +14,7 @@ PredSet(name) ==
       [] name = "p1x" -> {P(<<1>>, -1), P(<<1>>, 0), P(<<1>>, 1), P(<<-1>>, 0), P(<<-1>>, -1), P(<<0>>, 0), P(<<0>>, -1)}
       [] name = "p1y" -> {P(<<1>>, 0), P(<<1>>, 1), P(<<-1>>, 0), P(<<-1>>, -1)}
       [] name = "p2x" -> {P(<<1, 0>>, 0), P(<<-1, 0>>, 0), P(<<0, 1>>, 0), P(<<1, 1>>, 1), P(<<-1, -1>>, -2), P(<<1, 0>>, -1)}
+      [] name = "p2one" -> {P(<<1, 1>>, 1)}
       [] name = "p1a" -> {P(<<1>>, 0), P(<<1>>, 1), P(<<-1>>, 0)}
       [] name = "p1s" -> {P(<<1>>, 0), P(<<-1>>, -1)}
       [] name = "pp2s" -> {Aff(<<<<1, 0>>, <<0, 1>>>>, <<0, 1>>), P(<<1, 1>>, 1)}
@@ -23,6 +24,7 @@ TermSet(name) ==
       [] name = "t22b" -> {Aff(<<<<1, 0>>, <<0, 1>>>>, <<0, 0>>), Aff(<<<<0, 1>>, <<1, 0>>>>, <<1, -2>>), Aff(<<<<2, 0>>, <<0, -1>>>>, <<0, -1>>)}
       [] name = "t22c" -> {Aff(<<<<1, 0>>, <<0, 1>>>>, <<0, 0>>), Aff(<<<<1, 0>>, <<0, 1>>>>, <<0, 1>>), Aff(<<<<1, 0>>, <<0, 2>>>>, <<0, 0>>)}   \* differ only in bias / one coefficient
       [] name = "t22s" -> {Aff(<<<<0, 1>>, <<1, 0>>>>, <<1, 0>>)}
+      [] name = "tp2one" -> {Aff(<<<<1, 1>>>>, <<1>>), Aff(<<<<0, 1>>>>, <<0>>)}     \* the first one coincides with the predicate of p2one
       [] name = "tp2s" -> PredSet("p2s") \cup {Aff(<<<<0, 1>>>>, <<0>>)}          \* terminals R^2 -> R^1 that coincide with predicates of p2s
       [] name = "t21" -> {Aff(<<<<1, 1>>>>, <<0>>), Aff(<<<<1, 0>>>>, <<-1>>)}
       [] name = "t12" -> {Aff(<<<<1>>, <<-1>>>>, <<0, 0>>), Aff(<<<<0>>, <<1>>>>, <<1, 1>>)}
